@@ -19,7 +19,7 @@
 //         | I n stmt*n | W n use*n stmt | F n use*n stmt (stmt | -)
 // Input: one case per line, the source text hex-encoded.
 use program_structure::ast::{
-    self, Access, Definition, Expression, FillMeta, LogArgument, Statement, VariableType,
+    Access, Definition, Expression, FillMeta, LogArgument, Statement, VariableType,
 };
 use program_structure::cfg::verif::ensure_unique_variables;
 use program_structure::cfg::parameters::Parameters;
@@ -402,7 +402,6 @@ fn case(src: &str) -> String {
 
 fn main() {
     silence_panics();
-    let _ = ast::Meta::new(0, 0);
     each_line(|line| match unhex(line) {
         Some(src) => case(&src),
         None => "bad-line".to_string(),
